@@ -135,3 +135,35 @@ func invParser(p *Parser) bool {
 //@ loop 1 invariant [seg]   forall r :: i-(col-1) <= r && r < i ==> input[r] != '\n'
 //@ loop 1 invariant [start] col <= i ==> input[i-col] == '\n'
 //@ loop 1 invariant [line]  1 <= line && line <= i+1 && (col == i+1 ==> line == 1)
+
+// --- value parsers: size hints in the text never size an allocation beyond the input (memory bounded by the input) ---
+
+//@ func (*Parser).parseBoolean
+//@ requires invParser(p) && 0 <= size
+//@ modifies p.data, p.pos
+//@ allocates [input] len(p.input) + 1
+//@ ensures [inv] invParser(p)
+
+//@ func (*Parser).parseBinary
+//@ requires invParser(p) && 0 <= size
+//@ modifies p.data, p.pos
+//@ allocates [input] len(p.input) + 1
+//@ ensures [inv] invParser(p)
+
+//@ func (*Parser).parseFloat
+//@ requires invParser(p) && 0 <= size
+//@ modifies p.data, p.pos
+//@ allocates [input] len(p.input) + 1
+//@ ensures [inv] invParser(p)
+
+//@ func (*Parser).parseInt
+//@ requires invParser(p) && 0 <= size
+//@ modifies p.data, p.pos
+//@ allocates [input] len(p.input) + 1
+//@ ensures [inv] invParser(p)
+
+//@ func (*Parser).parseUint
+//@ requires invParser(p) && 0 <= size
+//@ modifies p.data, p.pos
+//@ allocates [input] len(p.input) + 1
+//@ ensures [inv] invParser(p)
